@@ -61,6 +61,8 @@ pub enum Op {
     RegisterCanonical { its: u8, asset: u8 },
     /// remote deploy message; `collide` = reuse the k-th id known on that service, else a fresh id
     RemoteDeploy { its: u8, collide: Option<u8>, fresh: u8, meta: Meta, minter: MinterSel },
+    /// the ledger advances (the registry must not decay with time)
+    AdvanceDays(u8),
 }
 
 #[derive(Clone, Debug, Serialize, Deserialize)]
@@ -109,6 +111,7 @@ fn op() -> impl Strategy<Value = Op> {
         5 => (0u8..2, 0u8..2, 0u8..2, meta(), supply(), minter_sel()).prop_map(|(its, deployer, salt, meta, supply, minter)| Op::DeployLocal { its, deployer, salt, meta, supply, minter }),
         2 => (0u8..2, 0u8..2).prop_map(|(its, asset)| Op::RegisterCanonical { its, asset }),
         3 => (0u8..2, proptest::option::of(0u8..6), 0u8..3, meta(), minter_sel()).prop_map(|(its, collide, fresh, meta, minter)| Op::RemoteDeploy { its, collide, fresh, meta, minter }),
+        1 => (1u8..60).prop_map(Op::AdvanceDays),
     ]
 }
 
@@ -177,10 +180,12 @@ impl Property for C11 {
         let net = network_id(env);
         let mut nontrivial = false;
         let mut msg_no = 0u64;
+        let mut days_passed: u32 = 0;
 
         for (step, op) in case.ops.iter().enumerate() {
             let si = match op {
                 Op::DeployLocal { its, .. } | Op::RegisterCanonical { its, .. } | Op::RemoteDeploy { its, .. } => *its as usize % 2,
+                Op::AdvanceDays(_) => 0,
             };
             // registry sweep helper
             let check_registry = |svcs: &Vec<Svc>, at: &str| -> Result<(), String> {
@@ -197,6 +202,13 @@ impl Property for C11 {
                 Ok(())
             };
             match op {
+                Op::AdvanceDays(d) => {
+                    if days_passed + *d as u32 <= 200 {
+                        days_passed += *d as u32;
+                        advance_ledgers(env, *d as u32 * 17280);
+                        cx.label("ledger_advanced_by_days");
+                    }
+                }
                 Op::DeployLocal { deployer, salt, meta, supply, minter, .. } => {
                     let dep = w.users[*deployer as usize % 3].clone();
                     let salt_b = h32("c11-salt", *salt as u64);
